@@ -60,7 +60,15 @@ NextCT == \E tag \in Tags :
                  /\ c' = <<"act", kind, tag>>
                  /\ Emit("CT", FlowModEl("m", 0, <<>>, <<InstrActs("i", "apply", << <<LeafAct("a1", kind, tag), FALSE>>, <<LeafAct("a2", "output", tag), FALSE>> >>)>>, tag).tree)
 \* switch-originated kinds built through the Go API: the encoders of these kinds under the construction judge (C03, C05, C06, C13)
-NextEB == \E kind \in BuiltKinds, tag \in Tags :
+NextEB == \/ \E kind \in LibKinds, tag \in Tags :
+               LET el == LibBuilt(kind, tag) IN
+               /\ c' = <<kind, tag>>
+               /\ PrintT(ToJson([k |-> "build", fam |-> "EB", nospec |-> TRUE, top |-> el.n, ops |-> el.ops,
+                                 observe |-> << <<"len", el.n>>, <<"marshal", el.n>>, <<"len", el.n>>, <<"marshal", el.n>> >>
+                                             \o (IF kind \in {"libport", "libtable", "libqueue"} THEN << <<"len", "r1">>, <<"marshal", "r1">>, <<"marshal", "r2">> >>
+                                                 ELSE << <<"len", "b">>, <<"marshal", "b">> >>),
+                                 kids |-> IF kind \in {"libport", "libtable", "libqueue"} THEN <<"r1", "r2">> ELSE <<"b">>, trees |-> [x \in {el.n} |-> el.tree]]))
+          \/ \E kind \in BuiltKinds, tag \in Tags :
             LET el == Built(kind, tag) IN
             /\ c' = <<kind, tag>>
             /\ PrintT(ToJson([k |-> "build", fam |-> "EB", top |-> el.n, ops |-> el.ops,
